@@ -27,6 +27,9 @@ CLAIMED = {
  "C12": ("sparse conditional constant propagation (int64 wrap-around + type-extreme facts) for dead numeric guards, operand-shape checks of the rotation arithmetic, verify-before-mutate ordering and guard-dominance in the update pipeline",
          "Decides that no guard in the rotation/update arithmetic is constant (flags the dead max/min scan of the priority window as an open finding), that the increment/rescale/centre/newcomer formulas have the specified operands and constants, that the update pipeline checks everything before its first mutation, and that consensus state advances the next set by one increment per block. Does not decide equality with the specification over histories or fairness.",
          "DESIGN.md §4 C12"),
+ "C19": ("guard-dominance checklists on evidence verification and pool admission, who-may-call of the unverifying writer, sibling agreement of the ordering key, unit (bytes vs count) agreement of the evidence budget over all call sites, ordering on the commit path",
+         "Decides that duplicate-vote evidence is accepted only behind the ten verification guards, against the block time and validator set of its height, only if neither pending nor committed; that consensus builds evidence only from a conflicting-votes error; that construction and validation order votes by the same key; that the pool is asked for a byte budget (fixed finding); and that committed evidence is marked after the state save. Does not decide cross-node acceptance (timestamps) or expiry over histories.",
+         "DESIGN.md §4 C19"),
  "C13": ("guard-dominance on part/proof/body checks + encoder/decoder sibling field-flow agreement + memo-key effect-set coverage + constant-table check of Merkle prefixes",
          "Decides that parts enter a part set only behind index, slot, proof and index-binding guards; that proof verification, Block.ValidateBasic and the proposal-block adoption path are complete checklists; that the header encoder covers every field and all hand-written codecs agree field by field; and that the validation memo key covers what the block hash does not. Does not decide byte-identical reassembly for arbitrary arrival orders.",
          "DESIGN.md §4 C13"),
